@@ -19,14 +19,15 @@ ID = "C10"
 LEVEL = "exploration"
 RULE = (
     "Cases = source of 0..60 samples (thorough ..400) with distinct content x width 1/2/4 x 1-3 channels x rate x "
-    "block B in 1..12 samples x hop (none, = B, 1..B-1) x max_read (none, k samples, k+1/4, k+3/4 samples; 0 and "
+    "block B in 1..12 samples x hop (none, = B, 1..B-1), durations passed as k/rate or, one case in three, with a "
+    "quarter/half/three-quarter sample added (so hop_dur < block_dur may mean the same number of samples) x max_read (none, k samples, k+1/4, k+3/4 samples; 0 and "
     "beyond the end included) x source kind (bytes, BufferAudioSource, lazy raw file, lazy wav file) x 1-5 reads past "
     "the end; plus rejected configurations (block shorter than a sample, block 0, hop > block). Oracle: closed-form "
     "block sequence over the visible prefix (chunks of B; with overlap block k = samples [k*hop, k*hop+B)), then None "
     "on every further call; block_size/hop_size/block_dur equal the model; ValueError for the rejected ones. "
     "Non-trivial = overlap with >= 3 blocks, or max_read strictly inside a block, or visible data shorter than a block."
 )
-MUST_HIT = ["empty_visible_with_overlap", "over_reads", "overlap_3_blocks", "max_read_inside_block",
+MUST_HIT = ["fractional_durations", "hop_lt_block_same_samples", "empty_visible_with_overlap", "over_reads", "overlap_3_blocks", "max_read_inside_block",
             "visible_shorter_than_block", "rejected", "kind_wav_lazy", "kind_raw_lazy"]
 ASSUMPTIONS = ["durations are passed as k/rate; where the exact product lies within 1e-9 of an integer either neighbour is accepted for block/hop size"]
 BOUNDS = {"quick": dict(n=1200, maxN=60), "thorough": dict(n=8000, maxN=400)}
@@ -78,27 +79,39 @@ def resolve_max_read(cfg):
     return None, None
 
 
+def durations(cfg):
+    """-> (block_dur, hop_dur or None) passed to AudioReader.  cfg['fb'] /
+    cfg['fh'] add a fraction of a sample to the block / hop duration."""
+    sr = cfg["sr"]
+    bd = (cfg["B"] + cfg.get("fb", 0)) / sr
+    hd = None if cfg.get("H") is None else (cfg["H"] + cfg.get("fh", 0)) / sr
+    return bd, hd
+
+
 def sizes(cfg, reader, case):
     """Check block_size / hop_size against the exact floor (razor aware).
     -> (B, H) the model must use."""
     sr = cfg["sr"]
     B = cfg["B"]
-    fl, razor = exact_floor(B / sr, sr)
+    bd, hd = durations(cfg)
+    fl, razor = exact_floor(bd, sr)
     ok = {fl, fl + 1} if razor else {fl}
     if reader.block_size not in ok:
-        raise Violation(f"block_size {reader.block_size} for block_dur={B / sr!r} at {sr} Hz, expected {sorted(ok)}", case)
+        raise Violation(f"block_size {reader.block_size} for block_dur={bd!r} at {sr} Hz, expected {sorted(ok)}", case)
     if reader.block_dur != reader.block_size / sr:
         raise Violation(f"block_dur {reader.block_dur!r} != block_size/rate", case)
     Beff = reader.block_size
-    H = cfg.get("H")
-    if H is None or H == B:
+    if hd is None or hd == bd:
         if reader.hop_size != Beff:
             raise Violation(f"hop_size {reader.hop_size} without overlap, expected {Beff}", case)
         return Beff, None
-    fl, razor = exact_floor(H / sr, sr)
+    fl, razor = exact_floor(hd, sr)
     ok = {fl, fl + 1} if razor else {fl}
     if reader.hop_size not in ok:
-        raise Violation(f"hop_size {reader.hop_size} for hop_dur={H / sr!r} at {sr} Hz, expected {sorted(ok)}", case)
+        raise Violation(f"hop_size {reader.hop_size} for hop_dur={hd!r} at {sr} Hz, expected {sorted(ok)}", case)
+    if reader.hop_size == Beff:
+        # hop_dur < block_dur but the same number of samples: blocks simply follow one another
+        return Beff, None
     return Beff, reader.hop_size
 
 
@@ -127,13 +140,18 @@ def check_case(case, rec):
                 return
             raise Violation(f"AudioReader accepted {how} {args}", case)
         mr, limit = resolve_max_read(cfg)
-        args = dict(block_dur=cfg["B"] / sr)
-        if cfg.get("H") is not None:
-            args["hop_dur"] = cfg["H"] / sr
+        bd, hd = durations(cfg)
+        args = dict(block_dur=bd)
+        if hd is not None:
+            args["hop_dur"] = hd
         if mr is not None:
             args["max_read"] = mr
         reader = auditok.AudioReader(inp, **args, **kw)
         B, H = sizes(cfg, reader, case)
+        if cfg.get("fb") or cfg.get("fh"):
+            classes.add("fractional_durations")
+            if hd is not None and hd < bd and H is None:
+                classes.add("hop_lt_block_same_samples")
         if H == 0:
             rec.extra["razor_hop0_skipped"] += 1
             return
@@ -186,6 +204,8 @@ def explicit_cases():
         dict(base, kind="wav_lazy", mr=[13, 0.25]),
         dict(base, kind="raw_lazy", H=None, N=3),
         dict(base, kind="buffer", H=5, mr=[40, 0]),
+        dict(base, H=5, fb=0.5, fh=0.0),
+        dict(base, H=2, fb=0.25, fh=0.75, kind="raw_lazy"),
         dict(base, reject="tiny_block"),
         dict(base, reject="zero_block"),
         dict(base, reject="hop_gt_block", extra=1),
@@ -207,6 +227,13 @@ def strategy(draw, maxN):
         cfg["extra"] = draw(st.integers(1, 3))
         return cfg
     cfg["H"] = draw(st.one_of(st.none(), st.just(B), st.integers(1, B)))
+    if draw(st.integers(0, 2)) == 0:
+        # durations that are not a whole number of samples (hop_dur <= block_dur kept)
+        cfg["fb"] = draw(st.sampled_from([0.25, 0.5, 0.75]))
+        if cfg["H"] is not None:
+            cfg["fh"] = draw(st.sampled_from([0, 0.25, 0.5, 0.75]))
+            if cfg["H"] == B and cfg["fh"] > cfg["fb"]:
+                cfg["fh"] = draw(st.sampled_from([0, cfg["fb"]]))
     cfg["mr"] = draw(st.one_of(st.none(), st.tuples(st.integers(0, N + 10), st.sampled_from([0, 0.25, 0.75])).map(list)))
     return cfg
 
